@@ -1,5 +1,6 @@
 import Driver.Util
 import MpcVerif.Model.PoolGC
+import MpcVerif.Model.PoolResult
 
 namespace Drv.C17
 open Mpc.Pool
@@ -19,6 +20,20 @@ def parseEv (s : String) : Option GEv :=
   | ["K", t] => do some (.collect (← t.toNat?))
   | _ => none
 
+/-- `C:<t>:<id>:<bits>` (goroutine `t` calls Compute, call id `id`) | `V:<t>:<id>` (the kept result of
+call `id` is read again). -/
+def parseRes (s : String) : Option Res.Ev :=
+  match s.splitOn ":" with
+  | ["C", _, id, bits] => do some (.call (← id.toNat?) (parseBits bits))
+  | ["V", _, id] => do some (.read (← id.toNat?))
+  | _ => none
+
+def hexNat (n : Nat) : String := String.ofList (Nat.toDigits 16 n)
+
+def resTok : String × Nat × Option (List Nat) → String
+  | (k, id, some v) => s!"{k}{id}=" ++ ",".intercalate (v.map hexNat)
+  | (k, id, none) => s!"{k}{id}=?"
+
 /-- `c17 trace <event> <event> ...`: is the logged sequence of pool events of a
 real run (a GC history included) a run of the model (each call executed as its block of atomic model
 steps at the position of its log entry)?  Prints the verdict and the summary
@@ -36,6 +51,12 @@ def handle (args : List String) : String :=
         s!"ok pools={r.σ.nPools} scratch={r.smap.length} handles={r.handles} reused={r.reused} " ++
         s!"maxlive={r.maxLive} live={r.live} releases={r.releases} noops={r.noops} aborts={r.aborts} " ++
         s!"verifies={r.verifies} dropped={g.dropped} collects={g.collects}"
+  | "rhist" :: nw :: nin :: nout :: gates :: widths :: evs =>
+    -- result histories: Compute as a pure function returning a fresh value (Model/PoolResult.lean); prints
+    -- what the keeper of each result reads at the return of its call and at every later re-read
+    match parseCircuit nw nin nout gates, (widths.splitOn ",").mapM String.toNat?, evs.mapM parseRes with
+    | some c, some ws, some evs => " ".intercalate ("ok" :: (Res.replay c ws evs).map resTok)
+    | _, _, _ => "bad-op"
   | _ => "bad-op"
 
 end Drv.C17
